@@ -41,6 +41,38 @@ CHECKS["C15"] = dict(
     technique="symbolic execution of the real Python code (symx replay DFS) + z3 LIA; differential against a reference interpreter",
 )
 
+_SRH_NOTE = ("Bounds: x86-64 ELF layouts of <= 4 blocks per section (code/data mixes, every terminator kind, 2 functions, "
+             "interleaved functions, label-less blocks, gaps and unowned tails), 1-3 modifications per scenario from "
+             "insert_at/replace_at/delete_at (+retarget_to_proxy) at every atom boundary, patch bodies from a fixed vocabulary "
+             "assembled by the real mcasm; every atom length, gap, address, displacement and raw patch length is a z3 integer "
+             "(no numeric bound; code atoms 1..15 bytes). Outside: alignment padding (C10), relayout by gtirb_layout when "
+             "sections would overlap, ARM64/PE layouts, scope-based registration (C07). Trusted: symx + shims (validated by "
+             "concrete replay of a witness of every path with expensive_assertions on), z3, oracle/listing.py, capstone for "
+             "instruction lengths inside patches, the assembler for patch bytes.")
+_SRH_TECH = "symbolic execution of the real RewritingContext.apply() pipeline (symx) + z3 LIA; differential against a listing model"
+CHECKS["C01"] = dict(level=MC, design="DESIGN.md section 6, C01", note=_SRH_NOTE, technique=_SRH_TECH,
+    text="Bounded symbolic model checking of the real rewrite pipeline: module sizes/offsets are z3 integers and byte "
+         "contents are ropes of per-instruction sources, so on every path the section bytes after apply() are compared, for "
+         "all sizes at once, with the listing model's rope (originals minus deleted atoms plus each patch once at its slot, "
+         "registration order at equal offsets); any exception other than the library's own overlap assertion is a violation.")
+CHECKS["C02"] = dict(level=MC, design="DESIGN.md section 6, C02", note=_SRH_NOTE, technique=_SRH_TECH,
+    text="Same exploration as C01; for every symbol (start, at_end, several per block, patch-defined, temporary) z3 decides "
+         "that its listing position address(referent)+(size if at_end) equals the label's position in the edited listing "
+         "model, that labels of wholly deleted blocks slid to the next block (or to a module proxy under retarget_to_proxy), "
+         "and that no symbol refers to a block outside the module; no extra symbols appear.")
+CHECKS["C04"] = dict(level=MC, design="DESIGN.md section 6, C04", note=_SRH_NOTE, technique=_SRH_TECH,
+    text="Same exploration as C01 with symbolic-expression, comment, padding and symbolicExpressionSizes entries at "
+         "symbolic displacements inside atoms (block- and interval-keyed): after re-keying to listing positions z3 decides "
+         "that exactly the entries of surviving atoms remain, each at its atom's new position, nothing outside its element, "
+         "and that patch-created expressions sit at patch position + operand offset, refer by identity to the module's "
+         "symbol, and carry the written addend and size.")
+CHECKS["C06"] = dict(level=MC, design="DESIGN.md section 6, C06", note=_SRH_NOTE, technique=_SRH_TECH,
+    text="Same exploration as C01 with function tables: every code atom of the edited listing (surviving or inserted) is "
+         "covered by exactly one code block, and that block's function (inverted functionBlocks) is the function the "
+         "listing model assigns; data is in no function; entries are a subset of blocks, surviving entry blocks stay "
+         "entries, promotions stay inside the function; functions without code leave all three tables (except documented "
+         "zero-sized blocks).")
+
 NOT_YET = "check not built yet in this round (planned, see DESIGN.md section 6)"
 
 manifest = {
